@@ -56,7 +56,14 @@ func newE3(p *Prog, r *Result, rootNames []string, extra []*ssa.Function) *E3 {
 		e.order = append(e.order, fn)
 	}
 	sort.Slice(e.order, func(i, j int) bool { return p.FuncName(e.order[i]) < p.FuncName(e.order[j]) })
-	e.t = newTaint(p, e.region)
+	var api []*ssa.Function
+	for _, fn := range e.roots {
+		switch n := p.FuncName(fn); {
+		case strings.HasPrefix(n, "fdo/protocol.Parse"), strings.HasPrefix(n, "fdo/cbor."), strings.HasPrefix(n, "fdo/cose."), strings.HasPrefix(n, "fdo.Voucher."):
+			api = append(api, fn)
+		}
+	}
+	e.t = newTaint(p, e.region, api...)
 	for _, fn := range e.order {
 		r.Functions[p.FuncName(fn)] = true
 		r.Packages[funcPkgPath(fn)] = true
@@ -232,6 +239,13 @@ var reviewedPanics = map[string]string{
 	"fdo/sqlite.query|programming error - query must have the same number of columns and values": "call sites pass literal column lists and matching destinations (C18 extracts them)",
 }
 
+func init() {
+	reviewedPanics["fdo/cose.ccmAEAD.Open|unimplemented"] = "AES-CCM is registered as an encrypt algorithm but no registered cipher suite names it (C09.cipher-registry enumerates the suites), so no session can select it"
+	reviewedPanics["fdo/cose.ccmAEAD.Seal|unimplemented"] = reviewedPanics["fdo/cose.ccmAEAD.Open|unimplemented"]
+	reviewedPanics["fdo/cose.ccmAEAD.tag|unimplemented"] = reviewedPanics["fdo/cose.ccmAEAD.Open|unimplemented"]
+	reviewedPanics["fdo/cose.pad|pad size miscalculated"] = "padSize = blockSize - len%blockSize lies in 1..blockSize"
+}
+
 var ssaArtifactPanics = map[string]bool{
 	"blocking select matched no case":           true,
 	"iterator call did not preserve panic":      true,
@@ -385,6 +399,10 @@ func canonAddr(v ssa.Value) string {
 	return v.Name()
 }
 
+// maxSaneBound: a constant upper bound counts as a memory bound only up to
+// this value (comparisons with MaxInt64 and the like bound nothing).
+const maxSaneBound = 1 << 24
+
 // boundFacts emits facts about integer SSA values established on an edge:
 //
 //	v:ub:<x>        x is bounded above by a constant or by len()/cap() of something
@@ -424,6 +442,17 @@ func boundFacts(m *Matcher, p Pred, holds bool) []Atom {
 		// x == y: both directions non-strict
 		out = append(out, boundFactsLE(m, p.X, p.Y, false, name, isConst)...)
 		out = append(out, boundFactsLE(m, p.Y, p.X, false, name, isConst)...)
+		// len(y) == <BlockSize()/NonceSize()/const>  and  len(y) % bs == 0
+		for _, pr := range [][2]ssa.Value{{p.X, p.Y}, {p.Y, p.X}} {
+			if l := lenOf(m, intRootNoVar(pr[0])); l != nil {
+				out = append(out, "v:leneq:"+canon(l))
+			}
+			if bo, ok := intRootNoVar(pr[0]).(*ssa.BinOp); ok && bo.Op == token.REM && isConstInt(intRootNoVar(pr[1]), 0) {
+				if l := lenOf(m, intRootNoVar(bo.X)); l != nil {
+					out = append(out, "v:lenmod:"+canon(l))
+				}
+			}
+		}
 		// len(y) == 2*n  =>  n <= len(y)
 		for _, pr := range [][2]ssa.Value{{p.X, p.Y}, {p.Y, p.X}} {
 			if l := lenOf(m, intRootNoVar(pr[0])); l != nil {
@@ -449,8 +478,12 @@ func boundFactsLE(m *Matcher, a, b ssa.Value, strict bool, name func(ssa.Value) 
 	}
 	// a (<|<=) b
 	if cb, ok := isConst(b); ok {
-		if _, aConst := isConst(a); !aConst {
+		if _, aConst := isConst(a); !aConst && cb <= maxSaneBound {
 			out = append(out, "v:ub:"+name(a))
+			if isUnsigned(a) {
+				// bounded in the unsigned domain: converting to int keeps it non-negative
+				out = append(out, "v:lb0:"+name(a))
+			}
 			if la := lenOf(m, intRoot(a)); la != nil {
 				_ = la
 			}
@@ -497,7 +530,7 @@ func panicObligations(c *Ctx, p *Prog, r *Result, prefix string, roots []*ssa.Fu
 		e.order = append(e.order, fn)
 	}
 	sort.Slice(e.order, func(i, j int) bool { return p.FuncName(e.order[i]) < p.FuncName(e.order[j]) })
-	e.t = newTaint(p, e.region)
+	e.t = newTaint(p, e.region, roots...)
 	e.g1(r, prefix)
 }
 
@@ -568,6 +601,10 @@ func (e *E3) g1(r *Result, prefix string) {
 				}
 				if pv := f.matcherFor(fn).Prov(recv); pv.Has("field:fdo/kex.CipherSuite.EncryptAlg") || pv.Has("field:fdo/kex.CipherSuite.MacAlg") {
 					r.table(p, rule2, siteKey(p, call), p.instrPos(call), cipherSuiteLiteralsOnlyInInit(p), "registry data: the algorithm is a field of a kex.CipherSuite, and CipherSuite values are built only in init (RegisterCipherSuite) — checked; their algorithms are registered (C09.cipher-registry)")
+					continue
+				}
+				if pr, isParam := recv.(*ssa.Parameter); isParam && e.paramFromCipherSuite(f, fn, pr) {
+					r.table(p, rule2, siteKey(p, call), p.instrPos(call), cipherSuiteLiteralsOnlyInInit(p), "registry data: every caller passes a field of a registered kex.CipherSuite for this parameter")
 					continue
 				}
 				// inside the accessor family itself (e.g. NewCrypter calling KeySize on its own receiver) the caller's obligation covers it
@@ -780,7 +817,8 @@ func (e *E3) g2(r *Result, prefix string, f *Flow) {
 		st := f.StateAt(in)
 		root := intRoot(size)
 		if st.Has("v:ub:" + canon(size)) {
-			r.table(p, rule, construct, p.instrPos(in), true, "dominated by an upper-bound comparison of "+root.Name())
+			nn := isUnsigned(size) || st.Has("v:lb0:"+canon(size)) || arithNonNeg(m, size, 0)
+			r.table(p, rule, construct, p.instrPos(in), nn, fmt.Sprintf("dominated by an upper-bound comparison of %s; non-negative (unsigned comparison, lower bound or unsigned type)=%v", root.Name(), nn))
 			return
 		}
 		if narrowBounded(m, size, 0) {
@@ -1010,14 +1048,7 @@ func (e *E3) boundsObligation(r *Result, rule string, f *Flow, c boundsSite) {
 		if cst, ok := constInt(v0); ok {
 			return cst >= 0
 		}
-		switch v0.Type().Underlying().String() {
-		case "uint", "uint8", "uint16", "uint32", "uint64", "uintptr", "byte":
-			return true
-		}
-		if lenDerivedNonNeg(m, v0) {
-			return true
-		}
-		if arithNonNeg(m, v0, 0) {
+		if arithNonNeg(m, v, 0) {
 			return true
 		}
 		return has("v:lb0:" + nm(v))
@@ -1075,6 +1106,12 @@ func (e *E3) boundsObligation(r *Result, rule string, f *Flow, c boundsSite) {
 				okHi = has(fmt.Sprintf("v:lenge:%s:%d", bname, cst)) || arrayLenAtLeast(base, cst) || kl >= cst
 			} else {
 				okHi = has("v:le:"+nm(hi)+":"+bname) || has("v:lt:"+nm(hi)+":"+bname) || isLenOf(m, hi, base) || readCount(m, hi, base)
+				if bo, ok := intRootNoVar(hi).(*ssa.BinOp); ok && bo.Op == token.SUB && isLenOf(m, bo.X, base) {
+					// x[: len(x)-k] with 0 <= k <= len(x)
+					if nonNeg(bo.Y) && (has("v:le:"+canon(bo.Y)+":"+bname) || has("v:lt:"+canon(bo.Y)+":"+bname)) {
+						okHi = true
+					}
+				}
 				if bo, ok := intRootNoVar(hi).(*ssa.BinOp); ok && bo.Op == token.ADD && lo != nil {
 					// x[b : b+a] with a <= len(x)-b
 					for _, q := range [][2]ssa.Value{{bo.X, bo.Y}, {bo.Y, bo.X}} {
@@ -1279,7 +1316,17 @@ func arithNonNeg(m *Matcher, v ssa.Value, depth int) bool {
 	if depth > 6 {
 		return false
 	}
-	v = intRootNoVar(v)
+	// a conversion from a 64-bit (or word-sized) unsigned value to a signed
+	// type may wrap to a negative number: only narrower sources stay >= 0
+	if cv, ok := v.(*ssa.Convert); ok {
+		switch cv.X.Type().Underlying().String() {
+		case "uint8", "uint16", "uint32", "byte":
+			return true
+		case "uint", "uint64", "uintptr":
+			return isUnsigned(v)
+		}
+		return arithNonNeg(m, cv.X, depth+1)
+	}
 	if c, ok := constInt(v); ok {
 		return c >= 0
 	}
@@ -1292,8 +1339,7 @@ func arithNonNeg(m *Matcher, v ssa.Value, depth int) bool {
 			return true
 		}
 	}
-	switch v.Type().Underlying().String() {
-	case "uint", "uint8", "uint16", "uint32", "uint64", "byte":
+	if isUnsigned(v) {
 		return true
 	}
 	if bo, ok := v.(*ssa.BinOp); ok {
@@ -1318,4 +1364,163 @@ var reviewedBounds = map[string]string{
 	"fdo/kex.oaepSymmetricKey":                          "the KDF output has exactly sekSize+svkSize bytes (requested length), sizes from the registry",
 	"fdo/kex.ecdhParam.MarshalBinary":                   "encodes this side's own freshly generated uncompressed point (1+2n bytes)",
 	"fdo/protocol.PublicKey.parseX5Chain":               "range index over certs into a slice made with len(certs) elements (the constant-index uses are discharged by the len(certs)==0 guard)",
+}
+
+// ---- G4: stdlib preconditions ----------------------------------------------------------
+
+type stdPre struct {
+	arg  int    // index into receiver-first operand list
+	need string // leneq | lenmod | lenge:<n>
+	doc  string
+}
+
+var stdPreconditions = map[string]stdPre{
+	"crypto/cipher.NewCBCDecrypter":         {1, "leneq", "cipher.NewCBCDecrypter panics if len(iv) != block size"},
+	"crypto/cipher.NewCBCEncrypter":         {1, "leneq", "cipher.NewCBCEncrypter panics if len(iv) != block size"},
+	"crypto/cipher.NewCTR":                  {1, "leneq", "cipher.NewCTR panics if len(iv) != block size"},
+	"crypto/cipher.AEAD.Open":               {2, "leneq", "AEAD.Open panics on a nonce of the wrong length"},
+	"crypto/cipher.AEAD.Seal":               {2, "leneq", "AEAD.Seal panics on a nonce of the wrong length"},
+	"crypto/cipher.BlockMode.CryptBlocks":   {2, "lenmod", "BlockMode.CryptBlocks panics if len(src) is not a multiple of the block size"},
+	"encoding/binary.bigEndian.Uint16":      {1, "lenge:2", "binary.BigEndian.Uint16 panics if len(b) < 2"},
+	"encoding/binary.bigEndian.Uint32":      {1, "lenge:4", "binary.BigEndian.Uint32 panics if len(b) < 4"},
+	"encoding/binary.bigEndian.Uint64":      {1, "lenge:8", "binary.BigEndian.Uint64 panics if len(b) < 8"},
+}
+
+func (e *E3) g4(r *Result, prefix string, f *Flow) {
+	p := e.p
+	rule := prefix + ".stdlib-preconditions"
+	r.rule(rule, "G4: calls of standard-library functions that panic on a malformed argument (IV / nonce length, whole blocks, minimum buffer length) with a peer-controlled argument are dominated by the matching length comparison, or the argument is a buffer of known size made in this function")
+	for _, fn := range e.order {
+		if !f.Region[fn] {
+			continue
+		}
+		m := f.matcherFor(fn)
+		for _, b := range fn.Blocks {
+			for _, in := range b.Instrs {
+				call, ok := in.(ssa.CallInstruction)
+				if !ok {
+					continue
+				}
+				pre, ok := stdPreconditions[p.calleeOf(call.Common()).Name]
+				if !ok {
+					continue
+				}
+				args := allArgs(call)
+				if pre.arg >= len(args) {
+					continue
+				}
+				a := args[pre.arg]
+				st := f.StateAt(call)
+				key := siteKey(p, call)
+				if !e.t.Is(a) && !e.t.memTainted(a) {
+					r.table(p, rule, key, p.instrPos(call), true, "argument is not peer-controlled ("+pre.doc+")")
+					continue
+				}
+				ok2 := false
+				switch {
+				case pre.need == "leneq":
+					_, fresh := a.(*ssa.MakeSlice)
+					ok2 = st.Has("v:leneq:"+canon(a)) || fresh
+				case pre.need == "lenmod":
+					ok2 = st.Has("v:lenmod:"+canon(a)) || isPadResult(m, a)
+				case strings.HasPrefix(pre.need, "lenge:"):
+					n, _ := strconv.Atoi(strings.TrimPrefix(pre.need, "lenge:"))
+					ok2 = st.Has(fmt.Sprintf("v:lenge:%s:%d", canon(a), n)) || knownLen(m, a) >= int64(n)
+				}
+				if reason, listed := reviewedStdPre[p.FuncName(fn)]; !ok2 && listed {
+					r.table(p, rule, key, p.instrPos(call), true, "reviewed: "+reason)
+					continue
+				}
+				r.table(p, rule, key, p.instrPos(call), ok2, pre.doc+"; needs "+pre.need+" for "+canon(a))
+			}
+		}
+	}
+}
+
+// isPadResult: the value is the result of an in-module padding helper (its
+// length is a whole number of blocks by construction).
+func isPadResult(m *Matcher, v ssa.Value) bool {
+	pv := m.Prov(v)
+	return pv.Has("call:bytes.Repeat") || pv.HasPrefix("via:bytes.Repeat")
+}
+
+// ---- G5: unchecked type assertions ---------------------------------------------------------
+
+func (e *E3) g5(r *Result, prefix string) {
+	p := e.p
+	rule := prefix + ".type-assertions"
+	r.rule(rule, "G5: a non-comma-ok type assertion on a peer-controlled interface value is allowed only where the dynamic type is fixed by construction (public keys parsed by this library, reflect types); decoded `any` values must be asserted with the comma-ok form")
+	for _, fn := range e.order {
+		for _, b := range fn.Blocks {
+			for _, in := range b.Instrs {
+				ta, ok := in.(*ssa.TypeAssert)
+				if !ok || ta.CommaOk {
+					continue
+				}
+				if !e.t.Is(ta.X) {
+					continue
+				}
+				m := p.matcher(fn)
+				pv := m.Prov(ta.X)
+				at := shortTypeString(ta.AssertedType)
+				reason, ok2 := "", false
+				switch {
+				case strings.Contains(at, "Equal(crypto.PublicKey) bool") && (pv.Has("call:fdo/protocol.PublicKey.Public") || pv.HasPrefix("via:fdo/protocol.PublicKey.Public") || pv.HasPrefix("field:")):
+					reason, ok2 = "a crypto.PublicKey produced by PublicKey.Public() is an *ecdsa.PublicKey or *rsa.PublicKey, both of which have Equal", true
+				case at == "reflect.Type" || strings.HasPrefix(funcPkgPath(fn), modulePath+"/plugin"):
+					reason, ok2 = "reflect type / local plugin protocol value, not a decoded peer value", true
+				case strings.HasPrefix(funcPkgPath(fn), modulePath+"/cbor"):
+					reason, ok2 = "codec-internal reflect value", true
+				}
+				k := 1
+				construct := fmt.Sprintf("assertion to %s in %s", at, p.FuncName(fn))
+				for r.hasConstruct(rule, fmt.Sprintf("%s #%d", construct, k)) {
+					k++
+				}
+				if !ok2 {
+					reason = "peer-controlled interface value asserted without the comma-ok form"
+				}
+				r.table(p, rule, fmt.Sprintf("%s #%d", construct, k), p.instrPos(in), ok2, reason)
+			}
+		}
+	}
+}
+
+var reviewedStdPre = map[string]string{
+	"fdo/cbor.toU64": "the buffer is 8-len(b) zero bytes followed by b, i.e. exactly 8 bytes; len(b) <= 8 is enforced just above",
+}
+
+// paramFromCipherSuite: every in-region static caller passes, for parameter pr
+// of fn, a value read from a field of a kex.CipherSuite.
+func (e *E3) paramFromCipherSuite(f *Flow, fn *ssa.Function, pr *ssa.Parameter) bool {
+	pi := -1
+	for i, q := range fn.Params {
+		if q == pr {
+			pi = i
+		}
+	}
+	sites := 0
+	for _, ed := range e.p.CallGraph().in[fn] {
+		if !f.Region[ed.Caller] || ed.Kind != "static" {
+			continue
+		}
+		call, ok := ed.Site.(ssa.CallInstruction)
+		if !ok || pi >= len(call.Common().Args) {
+			return false
+		}
+		sites++
+		pv := f.matcherFor(ed.Caller).Prov(call.Common().Args[pi])
+		if !pv.Has("field:fdo/kex.CipherSuite.EncryptAlg") && !pv.Has("field:fdo/kex.CipherSuite.MacAlg") {
+			return false
+		}
+	}
+	return sites > 0
+}
+
+func isUnsigned(v ssa.Value) bool {
+	switch v.Type().Underlying().String() {
+	case "uint", "uint8", "uint16", "uint32", "uint64", "uintptr", "byte":
+		return true
+	}
+	return false
 }
